@@ -204,3 +204,23 @@ impl<W: Copy, const N: usize> ReadWords<W, Stack> for FailAt<W, N> {
         self.inner.read()
     }
 }
+
+impl<W: Copy, const N: usize> PosSeek for ArrStack<W, N> {
+    type Position = usize;
+}
+impl<W: Copy, const N: usize> Pos for ArrStack<W, N> {
+    fn pos(&self) -> usize {
+        self.len
+    }
+}
+impl<W: Copy, const N: usize> Seek for ArrStack<W, N> {
+    /// stack semantics: seeking sets the stack height (contents of the array are kept)
+    fn seek(&mut self, pos: usize) -> Result<(), ()> {
+        if pos <= N {
+            self.len = pos;
+            Ok(())
+        } else {
+            Err(())
+        }
+    }
+}
